@@ -14,7 +14,7 @@ import warnings
 from pathlib import Path
 from typing import Any
 
-from .. import e2e
+from .. import e2e, guard
 from ..common import Hang, Rng, hx, unhx, watchdog
 from ..runner import Check
 from ..translate import formats
@@ -48,15 +48,23 @@ def campaign_bounds(ck: Check, n: int) -> None:
         c = rng.below(4)
         return None if c == 0 else (rng.chance(1, 2) if c == 1 else rng.range(-20, 20))
 
-    cases = [(num(), num(), excl(), excl()) for _ in range(n)]
+    cases = [(num(), num(), excl(), excl()) for _ in range(max(n, 400))]
     # all 3×3×… shapes once, with fixed numbers
     shapes = [(a, b, c, d) for a in (None, 1) for b in (None, 9) for c in (None, True, False, 2) for d in (None, True, False, 8)]
+    # a bound of exactly zero (falsy in Python) in every position, as int 0, float 0.0 and -0.0
+    zeros = [(a, b, c, d) for a in (None, 0, 5) for b in (None, 0, 5) for c in (None, True, False, 0) for d in (None, True, False, 0)
+             if 0 in (a, b) or c == 0 and c is not False or d == 0 and d is not False]
+    shapes += zeros
     cases[: len(shapes)] = shapes
+    zero_spelling = [rng.choice([0, 0.0, -0.0]) for _ in cases]
     replies = ck.driver.run([f"bounds.normalise {_enc_num(a)} {_enc_num(b)} {_enc_excl(c)} {_enc_excl(d)}" for a, b, c, d in cases])
-    for (a, b, c, d), rep in zip(cases, replies):
+    for (a, b, c, d), rep, z in zip(cases, replies, zero_spelling):
         camp.evaluations += 1
-        raw = {k: v for k, v in (("minimum", a), ("maximum", b), ("exclusiveMinimum", c), ("exclusiveMaximum", d)) if v is not None}
-        raw["type"] = "integer"
+        raw = {k: (z if (v == 0 and not isinstance(v, bool)) else v)
+               for k, v in (("minimum", a), ("maximum", b), ("exclusiveMinimum", c), ("exclusiveMaximum", d)) if v is not None}
+        raw["type"] = "number" if isinstance(z, float) else "integer"
+        if any(v == 0 and not isinstance(v, bool) for v in (a, b, c, d) if v is not None):
+            camp.hit("zero_bound:" + repr(z))
         try:
             with warnings.catch_warnings():
                 warnings.simplefilter("ignore")
@@ -167,6 +175,17 @@ def yaml_plain_timestamps(value) -> str:
     return yaml.dump(value, Dumper=D, allow_unicode=True, sort_keys=False)
 
 
+def yaml_text(doc) -> str:
+    """yaml.safe_dump of the value — checked to be read back as the value by the stock loader (PyYAML's
+    emitter writes U+0085 in a way its own reader does not invert when allow_unicode is on)"""
+    import yaml
+
+    text = yaml.safe_dump(doc, allow_unicode=True, sort_keys=False)
+    if yaml.safe_load(text) != doc:
+        text = yaml.safe_dump(doc, allow_unicode=False, sort_keys=False)
+    return text
+
+
 def reref(v, prefix: str):
     if isinstance(v, dict):
         return {k: (prefix + x.rsplit("/", 1)[-1] if k == "$ref" and isinstance(x, str) else reref(x, prefix)) for k, x in v.items()}
@@ -252,13 +271,13 @@ def gen_defs(rng: Rng) -> dict[str, dict]:
             s = {"type": "integer"}
             side = rng.below(4)
             if side & 1:
-                s[rng.choice(["minimum", "exclusiveMinimum"])] = rng.range(-5, 5)
+                s[rng.choice(["minimum", "exclusiveMinimum"])] = 0 if rng.chance(1, 3) else rng.range(-5, 5)
             if side & 2:
-                s[rng.choice(["maximum", "exclusiveMaximum"])] = rng.range(6, 50)
+                s[rng.choice(["maximum", "exclusiveMaximum"])] = 0 if rng.chance(1, 4) else rng.range(6, 50)
         elif c == 2:
             s = {"type": "number"}
             if rng.chance(1, 2):
-                s[rng.choice(["minimum", "exclusiveMinimum", "maximum", "exclusiveMaximum"])] = rng.choice([0, 1.5, -2.25, 1e16, 100])
+                s[rng.choice(["minimum", "exclusiveMinimum", "maximum", "exclusiveMaximum"])] = rng.choice([0, 0.0, -0.0, 1.5, -2.25, 1e16, 100])
             if rng.chance(1, 3):
                 s["default"] = rng.choice([1.5, 1e16, 2.0, 1e-7, 12345678901234567890])
         elif c == 3:
@@ -392,9 +411,12 @@ def json_text(doc, style: str) -> str:
         return json.dumps(doc, ensure_ascii=True, indent=2)
     if style == "tabs":
         return json.dumps(doc, ensure_ascii=False, indent="\t")
+    if style == "sorted_compact":  # top-level keys sorted, no blanks
+        return json.dumps({k: doc[k] for k in sorted(doc)}, ensure_ascii=False, separators=(",", ":"))
     return json.dumps(doc, ensure_ascii=False)
 
 
+STYLES = ["compact", "indent_ascii", "tabs", "sorted_compact"]
 PAIRS = ["json_vs_yaml", "json_vs_yaml12", "json_styles", "str_vs_path", "auto_vs_explicit", "definitions_vs_defs", "definitions_vs_openapi", "draft4_vs_draft6"]
 
 
@@ -405,15 +427,19 @@ def run_pair(pair: str, defs: dict, with_root: bool, variant: int) -> tuple[str,
     base_doc = wrap_jsonschema(defs, "definitions", with_root)
     base = run_gen(json.dumps(base_doc, ensure_ascii=False), "jsonschema")
     if pair == "json_vs_yaml":
-        return compare(base, run_gen(yaml.safe_dump(base_doc, allow_unicode=True, sort_keys=False), "jsonschema"), set())
+        return compare(base, run_gen(yaml_text(base_doc), "jsonschema"), set())
     if pair == "json_vs_yaml12":
         return compare(base, run_gen(yaml_plain_timestamps(base_doc), "jsonschema"), set())
     if pair == "json_styles":
-        return compare(base, run_gen(json_text(base_doc, ["compact", "indent_ascii", "tabs"][variant % 3]), "jsonschema"), set())
+        style = STYLES[variant % len(STYLES)]
+        if variant % 2 == 1:  # the same for an OpenAPI document
+            oa = wrap_openapi(defs)
+            return compare(run_gen(json.dumps(oa, ensure_ascii=False), "openapi"), run_gen(json_text(oa, style), "openapi"), set())
+        return compare(base, run_gen(json_text(base_doc, style), "jsonschema"), set())
     if pair == "str_vs_path":
         d = tempfile.mkdtemp(dir=e2e.scratch_root())
         p = Path(d) / ("schema.json" if variant % 2 == 0 else "schema.yaml")
-        text = json.dumps(base_doc, ensure_ascii=False) if variant % 2 == 0 else yaml.safe_dump(base_doc, allow_unicode=True, sort_keys=False)
+        text = json.dumps(base_doc, ensure_ascii=False) if variant % 2 == 0 else yaml_text(base_doc)
         p.write_text(text, encoding="utf-8")
         try:
             return compare(run_gen(text, "jsonschema"), run_gen(p, "jsonschema"), set())
@@ -426,7 +452,32 @@ def run_pair(pair: str, defs: dict, with_root: bool, variant: int) -> tuple[str,
                 del doc["$schema"]  # then `type: object` / `properties` is what marks it as a schema
             return compare(run_gen(json.dumps(doc, ensure_ascii=False), "jsonschema"), run_gen(json.dumps(doc, ensure_ascii=False), "auto"), set())
         oa = wrap_openapi(defs)
-        return compare(run_gen(json.dumps(oa, ensure_ascii=False), "openapi"), run_gen(yaml.safe_dump(oa, allow_unicode=True, sort_keys=False), "auto"), set())
+        explicit = run_gen(json.dumps(oa, ensure_ascii=False), "openapi")
+        # top-level keys in sorted order (`components`, `info` before `openapi`); the order of schemas and
+        # properties is part of the document and stays
+        oa = {k: oa[k] for k in sorted(oa)}
+        form = (variant // 2) % 6
+        if form == 0:
+            text, ext = yaml.safe_dump(oa, allow_unicode=True, sort_keys=False), ".yaml"
+        elif form == 1:  # one line, keys sorted: `components` and `info` come before `openapi`
+            text, ext = json.dumps(oa, ensure_ascii=False), ".json"
+        elif form == 2:  # the same without any blank
+            text, ext = json.dumps(oa, ensure_ascii=False, separators=(",", ":")), ".json"
+        elif form == 3:  # flow-style YAML
+            text, ext = yaml.safe_dump(oa, allow_unicode=True, default_flow_style=True, sort_keys=False, width=10**6), ".yaml"
+        elif form == 4:  # indented JSON, keys sorted
+            text, ext = json.dumps(oa, ensure_ascii=False, indent=2), ".json"
+        else:  # block YAML, top-level keys sorted
+            text, ext = yaml.safe_dump(oa, allow_unicode=True, sort_keys=False), ".yaml"
+        if (variant // 12) % 2 == 0:
+            return compare(explicit, run_gen(text, "auto"), set())
+        d = tempfile.mkdtemp(dir=e2e.scratch_root())
+        try:
+            p = Path(d) / ("api" + ext)
+            p.write_text(text, encoding="utf-8")
+            return compare(explicit, run_gen(p, "auto"), set())
+        finally:
+            shutil.rmtree(d, ignore_errors=True)
     if pair == "definitions_vs_defs":
         return compare(base, run_gen(json.dumps(wrap_jsonschema(defs, "$defs", with_root), ensure_ascii=False), "jsonschema"), set())
     if pair == "definitions_vs_openapi":
@@ -497,7 +548,7 @@ def oracle_case(ck: Check, camp, pair: str, defs: dict, with_root: bool, variant
     if r2 is None or r2[0] != mech:
         small, r2 = defs, r
     trig = string_trigger(small)
-    style = ["compact", "indent_ascii", "tabs"][variant % 3] if pair == "json_styles" else ""
+    style = STYLES[variant % len(STYLES)] if pair == "json_styles" else ""
     camp.hit(f"differ:{pair}:{mech}:{trig}")
     ck.fail({"oracle": "equivalent_inputs", "pair": pair, "mechanism": mech, "trigger": trig, "style": style,
              "has_exponent_float": "exponent_float" in trig, "has_astral_char": "astral_char" in trig},
@@ -515,11 +566,20 @@ def campaign_e2e(ck: Check, n: int) -> None:
         with_root = rng.chance(1, 2)
         camp.distinct.add(json.dumps(defs, sort_keys=True))
         for pair in PAIRS:
-            oracle_case(ck, camp, pair, defs, with_root, rng.below(6))
+            # the auto-detection pair walks through all of its 2 × 6 × 2 forms in turn
+            oracle_case(ck, camp, pair, defs, with_root, (2 * i + 1 if i % 3 else 2 * i) if pair == "auto_vs_explicit" else rng.below(24))
     camp.wall_s = time.time() - t0
 
 
 CORPUS = [
+    ("draft4_vs_draft6", {"A": {"type": "object", "properties": {"x": {"type": "integer", "exclusiveMinimum": 0}, "y": {"type": "number", "exclusiveMaximum": 0.0},
+                                                                 "z": {"type": "number", "exclusiveMinimum": -0.0, "exclusiveMaximum": 5}, "w": {"type": "integer", "minimum": 0}}}}, True, 0),
+    ("draft4_vs_draft6", {"A": {"type": "object", "properties": {"x": {"type": "integer", "exclusiveMinimum": 0, "maximum": 0}}}}, False, 1),
+    ("auto_vs_explicit", {"A": {"type": "object", "properties": {"x": {"type": "integer"}}}}, False, 3),
+    ("auto_vs_explicit", {"A": {"type": "object", "properties": {"x": {"type": "integer"}}}}, False, 5),
+    ("auto_vs_explicit", {"A": {"type": "object", "properties": {"x": {"type": "integer"}}}}, False, 7),
+    ("auto_vs_explicit", {"A": {"type": "object", "properties": {"x": {"type": "integer"}}}}, False, 12 + 3),
+    ("auto_vs_explicit", {"A": {"type": "object", "properties": {"x": {"type": "integer"}}}}, False, 12 + 7),
     ("draft4_vs_draft6", {"A": {"type": "object", "properties": {"x": {"type": "integer", "exclusiveMinimum": 0, "exclusiveMaximum": 10}, "y": {"type": "number", "minimum": 1.5}}}}, True, 1),
     ("definitions_vs_defs", {"A": {"type": "object", "properties": {"b": {"$ref": "#/definitions/B"}}}, "B": {"type": "string", "enum": ["on", "off"]}}, False, 0),
     ("definitions_vs_openapi", {"A": {"type": "object", "properties": {"b": {"type": "array", "items": {"$ref": "#/definitions/B"}}}, "required": ["b"]}, "B": {"type": "object", "properties": {"when": {"type": "string", "format": "date-time"}}}}, False, 0),
@@ -583,7 +643,7 @@ def search(ck: Check) -> None:
     for s in YAMLISH:
         defs = {"A": {"type": "object", "properties": {s or "k": {"type": "string", "default": s, "enum": [s or "x", "z"]}}}}
         for pair in ("json_vs_yaml", "json_vs_yaml12", "json_styles", "definitions_vs_defs", "definitions_vs_openapi"):
-            for v in range(3 if pair == "json_styles" else 1):
+            for v in range(8 if pair == "json_styles" else 1):
                 oracle_case(ck, camp, pair, defs, True, v)
         if ck.failures:
             return
@@ -591,7 +651,7 @@ def search(ck: Check) -> None:
 
 def run(ck: Check) -> None:
     quick = ck.tier == "quick"
-    ck.translate(formats.GEN_NAME, formats.generate())
+    ck.translate(formats.GEN_NAME, formats.generate())  # extractors fall back to an 'unrecognised' table
     ck.prove()
     ck.assumptions += [
         "JSON-vs-YAML text and str-vs-Path are I/O (PyYAML, file system): no theorem, differential runs only",
@@ -601,10 +661,10 @@ def run(ck: Check) -> None:
         "definitions vs components.schemas: the JSON-Schema document has a root schema and the OpenAPI document has none, so the root model `Model` is not compared there; everywhere else every top-level definition is compared",
         "compared per top-level definition: ast.dump of the ClassDef (name, bases, members, annotations, defaults, docstrings); output model type pydantic v2, formatters off",
     ]
-    campaign_bounds(ck, 400 if quick else 4000)
-    campaign_containers(ck, 40 if quick else 300)
-    campaign_e2e(ck, 60 if quick else 600)
-    campaign_both_containers(ck)
+    guard.campaign(ck, campaign_bounds, 400 if quick else 4000)
+    guard.campaign(ck, campaign_containers, 40 if quick else 300)
+    guard.campaign(ck, campaign_e2e, 60 if quick else 600)
+    guard.campaign(ck, campaign_both_containers)
     ck.search_hooks.append(search)
     known_findings(ck)
 
